@@ -87,4 +87,40 @@ theorem signBytes_stamp_eqModTs {q : Req} {t : Int} {a : SB} (ha : signBytes q =
 
 theorem reqStep_stamp (q : Req) (t : Int) : reqStep (stamp t q) = reqStep q := rfl
 
+theorem runNode_wal (k : Core S I) (n : Node S I) (is : List (I × Int)) :
+    (runNode k n is).wal = n.wal ++ is.map (·.1) := by
+  induction is generalizing n with
+  | nil => simp [runNode]
+  | cons a is ih =>
+    obtain ⟨i, t⟩ := a
+    show (runNode k (handle k n i t) is).wal = _
+    rw [ih]
+    simp [handle]
+
+/-- bridge to the byte-level WAL (C15): if the records a crash+recovery leaves (`hw'`, encoded) are a
+prefix of the written ones and contain the durable ones (`Props.C15.durable_returned`:
+`durableHead … <+: hw'`, `hw' <+: hs`), and the records this model counts as synced are among the
+durable ones (`hist_sync`: FlushAndSync moves everything written under the fsync watermark), then
+the decoded survivors are `Survives` -/
+theorem survives_of_durable {B : Type} (enc : I → B) (dec : B → Option I) (hdec : ∀ a, dec (enc a) = some a)
+    (n : Node S I) (hw' durable : List B) (h1 : durable <+: hw') (h2 : hw' <+: n.wal.map enc)
+    (h3 : n.synced ≤ durable.length) : Survives n (hw'.filterMap dec) := by
+  have hk : hw' = (n.wal.take hw'.length).map enc := by
+    rw [List.map_take]
+    exact List.prefix_iff_eq_take.1 h2
+  have hfm : ∀ l : List I, (l.map enc).filterMap dec = l := by
+    intro l
+    induction l with
+    | nil => rfl
+    | cons a l ih => simp [hdec, ih]
+  have hf : hw'.filterMap dec = n.wal.take hw'.length := by
+    conv => lhs; rw [hk]
+    exact hfm _
+  have hlen : hw'.length ≤ n.wal.length := by
+    have := h2.length_le; simpa using this
+  refine ⟨?_, ?_⟩
+  · rw [hf]; exact List.take_prefix _ _
+  · rw [hf, List.length_take, Nat.min_eq_left hlen]
+    exact Nat.le_trans h3 h1.length_le
+
 end Tmv.SignNode
